@@ -232,7 +232,7 @@ func drawUnexpected(c *choice.Stream, cf *Conf) ([]byte, string) {
 func init() {
 	Register(&Prop{
 		ID: "C04", Engine: "A", Quick: 12000, Thorough: 6000, Level: "exploration",
-		Rule:     "each run = one generated query scenario (select or insert, schema, compression, revisions) + one drawn primary fault (cut FIN/RST at byte k, write error at byte k, failing callback j, exception / unknown code / unexpected packet at script position p) + one seeded schedule of all client goroutines and environment actions; distinct = distinct schedule digests; non-trivial = the fault fired and Do returned an error",
+		Rule:     "each run = one generated query scenario (select or insert, schema, compression, revisions) + one drawn primary fault (cut FIN/RST at byte k, write error at byte k, failing callback j, exception / unknown code / unexpected packet at script position p, one byte of the server stream altered in flight, unequal input columns; in a quarter of the runs the connection reports an error from Close; after a cut the client may stay open only if the fault plan says a whole exception packet was delivered) + one seeded schedule of all client goroutines and environment actions; distinct = distinct schedule digests; non-trivial = the fault fired and Do returned an error",
 		Run:      runC04,
 		SlowCase: 30 * time.Second, // a fault-point enumeration case is several hundred simulated runs
 	})
